@@ -9,7 +9,7 @@ func (t *Tree) predictedName(r *GenRes) string {
 	name := r.Name
 	if r.Kind == "Namespace" {
 		// the namespace directive renames Namespace objects (documented field spec metadata/name of kind Namespace)
-		for li := r.Layer; li < len(t.Layers); li++ {
+		for _, li := range t.Chain(r.Layer) {
 			if t.Layers[li].NS != "" {
 				name = t.Layers[li].NS
 			}
@@ -19,7 +19,7 @@ func (t *Tree) predictedName(r *GenRes) string {
 	if affixSkipKinds[r.Kind] {
 		return name
 	}
-	for li := r.Layer; li < len(t.Layers); li++ {
+	for _, li := range t.Chain(r.Layer) {
 		L := t.Layers[li]
 		name = L.Prefix + name + L.Suffix
 	}
@@ -28,11 +28,11 @@ func (t *Tree) predictedName(r *GenRes) string {
 
 // predictedNS: outermost namespace directive on r's chain (C09); cluster-scoped kinds get none.
 func (t *Tree) predictedNS(r *GenRes) string {
-	if isClusterScoped(r.Kind) {
+	if r.clusterScoped() {
 		return ""
 	}
 	ns := r.NS
-	for li := r.Layer; li < len(t.Layers); li++ {
+	for _, li := range t.Chain(r.Layer) {
 		if t.Layers[li].NS != "" {
 			ns = t.Layers[li].NS
 		}
@@ -68,7 +68,7 @@ func (t *Tree) chainNames(r *GenRes) map[string]bool {
 	if affixSkipKinds[r.Kind] {
 		return out
 	}
-	for li := r.Layer; li < len(t.Layers); li++ {
+	for _, li := range t.Chain(r.Layer) {
 		L := t.Layers[li]
 		name = L.Prefix + name
 		out[name] = true
